@@ -94,7 +94,8 @@ pub trait Metadata {
 
         let sample_rate = u64::from(self.sample_rate());
 
-        self.total_samples().map(|s| {
+        // a sample rate of 0 can be stored in STREAMINFO; it has no duration
+        self.total_samples().filter(|_| sample_rate > 0).map(|s| {
             std::time::Duration::new(
                 s / sample_rate,
                 u32::try_from(((s % sample_rate) * NANOS_PER_SEC) / sample_rate)
